@@ -5,6 +5,7 @@ import Az65.Drv.Lex
 import Az65.Drv.Asm
 import Az65.Drv.Spec
 import Az65.Drv.Abs
+import Az65.Drv.Cli
 /-
 `azmodel`: line-protocol driver.  Reads `id \t mode \t args…` lines on stdin, prints
 `id \t <model/spec columns>` per line.  Imports only Model/Spec/Drv files (no Mathlib), so it
@@ -21,6 +22,7 @@ def dispatch (mode : String) (args : List String) : String :=
   | "asm" => runAsm args
   | "spec" => runSpec args
   | "abs" => runAbs args
+  | "cli" => runCli args
   | _ => "BADMODE"
 
 partial def loop (h : IO.FS.Stream) (out : IO.FS.Stream) : IO Unit := do
